@@ -138,6 +138,13 @@ abbrev KV := List (Bytes × Bytes)
 def kvPut (s : KV) (k v : Bytes) : KV := (k, v) :: s
 def kvGet (s : KV) (k : Bytes) : Option Bytes := (s.find? fun p => p.1 = k).map (·.2)
 
+/-- leveldb `genKey(dir, name)`: dir 00 name (the same formula as `Model.C19.dirKey`, which the C19
+    correspondence check ties to the store through listing behaviour) -/
+def keyLeveldb (dir name : Bytes) : Bytes := dir ++ [0] ++ name
+
+/-- leveldb2 / leveldb3 `genKey`: md5(dir) name, with the hash function as a parameter -/
+def keyMd5 (h : Bytes → Bytes) (dir name : Bytes) : Bytes := h dir ++ name
+
 /-- wrapper InsertEntry / UpdateEntry -/
 def insert (C : Codec) (key : Bytes) (s : KV) (e : Entry) : KV := kvPut s key (storeValue C (beforeEntry e))
 
